@@ -186,6 +186,7 @@ theorem genRow_fold_eq (d : Char) (row : List Str) : ∀ (acc : Str),
 
 theorem genRow_eq (d : Char) (row : List Str) (eol : Str) :
     genRow row [d] eol = .ok (Csv.gen d row eol) := by
-  simp only [genRow, Csv.gen, genRow_fold_eq, csvgen_sliceTo_neg_one, List.nil_append]
+  simp only [genRow, Csv.gen, genRow_fold_eq, List.nil_append]
+  simp [sliceTo, List.dropLast_eq_take]
 
 end N0.CsvGenEq
